@@ -39,9 +39,13 @@ package criteria_ordering
 //@   loop 1 invariant [ctx] fresh(copied) && len(copied) == criteriaCount && criteriaCount == len(*criteria) && i < criteriaCount
 //@   loop 1 invariant [perm] model.rearranged(copied, *criteria)
 
-// The weakest-by-probability resolver removes elements in place inside a labelled search loop; its permutation
-// property is assumed here (listed as a trusted contract in the evidence).
+// The weakest-by-probability resolver: drawing weights are proved (importance shifted so that the smallest is at least 1, then
+// inverted: smallest shifted importance / shifted importance, so a less important criterion gets the larger weight); the
+// draw loop removes elements in place inside a labelled search loop and its permutation property is assumed ("assumes").
 //@ func (*WeakestByProbabilityCriteriaOrderingResolver).OrderCriteria
-//@   trusted
+//@   property C15 C16
 //@   requires model.distinctCriteria(params.Criteria) && model.validParams(*listener, params.MethodParameters) && model.coversAll(*listener, params.MethodParameters, params.Criteria)
-//@   ensures result != nil && fresh(result) && fresh(*result) && model.rearranged(*result, params.Criteria)
+//@   assumes [permutation] result != nil && fresh(result) && fresh(*result) && model.rearranged(*result, params.Criteria)
+//@   loop 1 invariant [shift_so_that_the_smallest_importance_is_at_least_one] iter == 0 ==>
+//@             (sorted[0].Weight <= 1.0 ? (dif == 1.0 - sorted[0].Weight && minWeight == 1.0) : (dif == 0.0 && minWeight == sorted[0].Weight))
+//@   loop 1 hint [inverse_of_the_shifted_importance] let k = i in sorted[k].Weight == minWeight / (head(sorted[k].Weight) + dif) && total == head(total) + sorted[k].Weight
